@@ -39,6 +39,8 @@ func init() {
 const hookStart = 100 // pseudo yield point: a client call is about to start
 
 type gor struct {
+	evSince   int    // OnEvict callbacks run by this goroutine since its last vpClearShard
+	lastShard uint64 // shard index observed at vpClearShard
 	rec  *callRec // client: the call in progress
 	name string
 	park chan struct{}
@@ -149,6 +151,17 @@ func (s *sched) record(g *gor, line string) {
 func (s *sched) point(id int) {
 	g := s.lookup(id)
 	s.mu.Lock()
+	if id == 28 {
+		// vpClearShard: Clear has wiped one shard.  Only shards that held entries are yield points
+		// (the others would add 256 idle releases per Clear): the goroutine parks iff OnEvict ran
+		// since the previous shard boundary.
+		if g.evSince == 0 {
+			s.mu.Unlock()
+			return
+		}
+		g.evSince = 0
+		s.events = append(s.events, event{g, fmt.Sprintf("obs 28 %d 0", g.lastShard)})
+	}
 	g.at = id
 	s.seq++
 	if id >= 50 && id <= 54 && g == s.app {
@@ -201,6 +214,12 @@ func (s *sched) point(id int) {
 
 func (s *sched) observe(id int, a, b uint64) {
 	g := s.lookup(id)
+	if id == 28 {
+		s.mu.Lock()
+		g.lastShard = a
+		s.mu.Unlock()
+		return
+	}
 	if id == 30 {
 		s.mu.Lock()
 		s.appKey = b
@@ -230,8 +249,20 @@ func (s *sched) flush(cur *gor) {
 			s.r.Emit("%s", e.line)
 		}
 	}
+	// then the applier's: the only goroutine that moves without being released is a freshly
+	// started applier (Clear's last step is `go c.processItems()`); if its first receive completes
+	// the send of a blocked Del/Wait, that client may reach its next yield point before the applier
+	// reaches its own, but the receive came first
+	s.mu.Lock()
+	app := s.app
+	s.mu.Unlock()
 	for _, e := range evs {
-		if e.owner != cur {
+		if e.owner != cur && e.owner == app {
+			s.r.Emit("%s", e.line)
+		}
+	}
+	for _, e := range evs {
+		if e.owner != cur && e.owner != app {
 			s.r.Emit("%s", e.line)
 		}
 	}
@@ -388,6 +419,7 @@ func cacheCaseBody(r *Run, rng *rand.Rand, cfg cacheCfg, nClients int, sample bo
 			g := s.lookup(0)
 			s.mu.Lock()
 			s.seq++
+			g.evSince++
 			if it.Value != 0 {
 				s.evictCnt[it.Value]++
 			}
@@ -751,6 +783,18 @@ func cacheCaseBody(r *Run, rng *rand.Rand, cfg cacheCfg, nClients int, sample bo
 			}
 		}
 		sc.count = func(n string) { r.Count(n) }
+		sc.cliAt = func(ci int) int {
+			s.mu.Lock()
+			defer s.mu.Unlock()
+			return s.clients[ci].at
+		}
+		sc.lastCall = func() *callRec {
+			if len(calls) == 0 {
+				return nil
+			}
+			return calls[len(calls)-1]
+		}
+		sc.fail = func(prop, what string) { r.Fail(prop, what, strings.Join(sampleLines, " | ")) }
 		sc.checkFresh = func() {
 			// C15: after an un-overlapped Clear has returned the cache is empty, its capacity and
 			// its metrics are reset
@@ -939,6 +983,23 @@ func oracleQuiescent(r *Run, s *sched, cfg cacheCfg, cache *ristretto.Cache[uint
 		for k := range pk {
 			if !sk[k] {
 				r.Fail("C13", fmt.Sprintf("key %d is accounted but not stored (drained state)", k), in)
+				// C14: if the accepted writes of this key carried TTLs that have all elapsed, this is an
+				// expired item whose capacity is never given back (and which expiry processing can no
+				// longer see: it is in no map)
+				now := time.Now()
+				var lastSet *callRec
+				allTTL := true
+				for _, c := range calls {
+					if h, _ := keyHash(cfg.mode, c.key); c.kind == "set" && h == k && c.ok && c.endSeq != 0 {
+						lastSet = c
+						if c.ttl <= 0 {
+							allTTL = false
+						}
+					}
+				}
+				if lastSet != nil && allTTL && lastSet.endT.Add(lastSet.ttl).Add(11*time.Second).Before(now) {
+					r.Fail("C14", fmt.Sprintf("key %d was written with a TTL (%v) that elapsed long ago; it is in no map but its cost is still charged (RemainingCost()=%d of %d): the expired item is never reclaimed", k, lastSet.ttl, cache.RemainingCost(), sn.MaxCost), in)
+				}
 			}
 		}
 	}
@@ -1147,6 +1208,9 @@ func oracleFinal(r *Run, s *sched, cfg cacheCfg, cache *ristretto.Cache[uint64, 
 				r.FailSig("C04", "F8", fmt.Sprintf("value %d (key %d) accepted but never passed to OnExit, not even by Close (colliding primary hashes)", c.val, c.key), in)
 			} else {
 				r.Fail("C04", fmt.Sprintf("value %d (key %d) accepted but never passed to OnExit, not even by Close", c.val, c.key), in)
+				// C15: "after Close returns ... every value still held or buffered has been released
+				// through the callbacks"
+				r.Fail("C15", fmt.Sprintf("Close returned but value %d (key %d), accepted earlier and still held or buffered, was never released through OnExit", c.val, c.key), in)
 			}
 		}
 	}
